@@ -249,13 +249,35 @@ func (dec *Decoder) DiscardUntilByte(untilCh byte) {
 	}
 }
 
-func (dec *Decoder) DiscardLine() {
+// DiscardLine discards the remaining of the current line.
+//
+// On the server side, false is returned if the discarded line ends with a
+// non-synchronizing literal header: the client sends the literal data right
+// after it, without waiting for the server.
+func (dec *Decoder) DiscardLine() bool {
 	if dec.crlf {
-		return
+		return true
 	}
 	var text string
 	dec.Text(&text)
 	dec.CRLF()
+	return dec.side != ConnSideServer || !hasNonSyncLiteralSuffix(text)
+}
+
+func hasNonSyncLiteralSuffix(s string) bool {
+	if !strings.HasSuffix(s, "+}") {
+		return false
+	}
+	i := strings.LastIndexByte(s, '{')
+	if i < 0 || i+1 == len(s)-2 {
+		return false
+	}
+	for _, ch := range s[i+1 : len(s)-2] {
+		if ch < '0' || ch > '9' {
+			return false
+		}
+	}
+	return true
 }
 
 func (dec *Decoder) DiscardValue() bool {
